@@ -498,6 +498,358 @@ reachable state. -/
 theorem history_keys (e : Endian) (ops : List Op) : KeysNodup ((Sys.init e).final ops).arch :=
   (history e ops).1
 
+/-! ### aligned histories keep whole cells inside the data, pairwise disjoint -/
+
+/-- Every annotation sits on a cell boundary and the data is a whole number of cells. -/
+def Aligned (a : BinArchive) : Prop :=
+  a.size % 4 = 0 ∧ (∀ k ∈ keys a.text, k % 4 = 0) ∧ (∀ k ∈ keys a.pointers, k % 4 = 0)
+  ∧ (∀ k ∈ keys a.labels, k % 4 = 0) ∧ (∀ p ∈ a.cstrings, ∀ x ∈ p.2, x % 4 = 0)
+
+/-- The calls of an *aligned* history: annotations are written at cell addresses, the data grows
+and is cut by whole cells (relocation requests need no side condition: misaligned ones are
+rejected).  Everything else — reads, typed and byte writes at any address, deletes, cursor
+movements — is unrestricted. -/
+def OpAligned (s : Sys) : Op → Prop
+  | .allocEnd n | .wAllocEnd n => n % 4 = 0
+  | .wAlloc n _ => n % 4 = 0
+  | .truncate c => c % 4 = 0
+  | .writeStr x (some _) | .writePtr x (some _) | .writeCStr x _ | .writeLabel x _ | .writeLabels x _ => x % 4 = 0
+  | .wStr (some _) | .wPtr (some _) | .wCStr _ | .wLabel _ => s.wpos % 4 = 0
+  | _ => True
+
+private theorem aligned_of_fields (a a' : BinArchive)
+    (h : a'.text = a.text ∧ a'.pointers = a.pointers ∧ a'.labels = a.labels ∧ a'.cstrings = a.cstrings
+      ∧ a'.size = a.size) (hi : Aligned a) : Aligned a' := by
+  obtain ⟨h1, h2, h3, h4, h5⟩ := h
+  unfold Aligned at *
+  rw [h1, h2, h3, h4, h5]
+  exact hi
+
+private theorem aligned_insert {ν : Type} (m : UMap Nat ν) (x : Nat) (v : ν) (hx : x % 4 = 0)
+    (h : ∀ k ∈ keys m, k % 4 = 0) : ∀ k ∈ keys (UMap.insert m x v), k % 4 = 0 := by
+  intro k hk
+  rcases (mem_keys_insert _ _ _ _).mp hk with rfl | hk
+  · exact hx
+  · exact h k hk
+
+private theorem aligned_filter {ν : Type} (m : UMap Nat ν) (f : Nat × ν → Bool)
+    (h : ∀ k ∈ keys m, k % 4 = 0) : ∀ k ∈ keys (m.filter f), k % 4 = 0 :=
+  fun k hk => h k (mem_keys_filter _ _ _ hk)
+
+private theorem aligned_writeString (a a' : BinArchive) (x : Nat) (v : Option Str)
+    (hx : v.isSome → x % 4 = 0) (h : a.writeString x v = .ok a') (hi : Aligned a) : Aligned a' := by
+  unfold writeString deleteString at h
+  obtain ⟨h0, h1, h2, h3, h4⟩ := hi
+  split at h
+  · split at h <;> try (cases h; done)
+    injection h with h; subst h
+    exact ⟨h0, aligned_insert _ _ _ (hx rfl) h1, h2, h3, h4⟩
+  · split at h <;> try (cases h; done)
+    injection h with h; subst h
+    exact ⟨h0, aligned_filter _ _ h1, h2, h3, h4⟩
+
+private theorem aligned_writePointer (a a' : BinArchive) (x : Nat) (v : Option Nat)
+    (hx : v.isSome → x % 4 = 0) (h : a.writePointer x v = .ok a') (hi : Aligned a) : Aligned a' := by
+  unfold writePointer deletePointer at h
+  obtain ⟨h0, h1, h2, h3, h4⟩ := hi
+  split at h
+  · split at h <;> try (cases h; done)
+    injection h with h; subst h
+    exact ⟨h0, h1, aligned_insert _ _ _ (hx rfl) h2, h3, h4⟩
+  · split at h <;> try (cases h; done)
+    injection h with h; subst h
+    exact ⟨h0, h1, aligned_filter _ _ h2, h3, h4⟩
+
+private theorem aligned_writeCString (a a' : BinArchive) (x : Nat) (v : Str) (hx : x % 4 = 0)
+    (h : a.writeCString x v = .ok a') (hi : Aligned a) : Aligned a' := by
+  unfold writeCString at h
+  obtain ⟨h0, h1, h2, h3, h4⟩ := hi
+  split at h <;> try (cases h; done)
+  injection h with h; subst h
+  refine ⟨h0, h1, h2, h3, ?_⟩
+  intro p hp y hy
+  rcases mem_insert _ _ _ _ hp with rfl | hp
+  · simp only [List.mem_append, List.mem_singleton] at hy
+    rcases hy with hy | rfl
+    · cases hg : UMap.get a.cstrings v with
+      | none => simp [hg] at hy
+      | some b =>
+        simp [hg] at hy
+        exact h4 _ (get_mem _ _ _ hg) y hy
+    · exact hx
+  · exact h4 p hp y hy
+
+private theorem aligned_labels (a : BinArchive) (l : UMap Nat (List Str)) (hl : ∀ k ∈ keys l, k % 4 = 0)
+    (hi : Aligned a) : Aligned { a with labels := l } :=
+  ⟨hi.1, hi.2.1, hi.2.2.1, hl, hi.2.2.2.2⟩
+
+private theorem aligned_writeLabel (a a' : BinArchive) (x : Nat) (v : Str) (hx : x % 4 = 0)
+    (h : a.writeLabel x v = .ok a') (hi : Aligned a) : Aligned a' := by
+  unfold writeLabel at h
+  split at h <;> try (cases h; done)
+  split at h <;>
+    (injection h with h; subst h; exact aligned_labels a _ (aligned_insert _ _ _ hx hi.2.2.2.1) hi)
+
+private theorem aligned_writeLabels (a a' : BinArchive) (x : Nat) (v : List Str) (hx : x % 4 = 0)
+    (h : a.writeLabels x v = .ok a') (hi : Aligned a) : Aligned a' := by
+  unfold writeLabels at h
+  split at h <;> try (cases h; done)
+  injection h with h; subst h
+  exact aligned_labels a _ (aligned_insert _ _ _ hx hi.2.2.2.1) hi
+
+private theorem aligned_deleteLabels (a a' : BinArchive) (x : Nat)
+    (h : a.deleteLabels x = .ok a') (hi : Aligned a) : Aligned a' := by
+  unfold deleteLabels at h
+  split at h <;> try (cases h; done)
+  injection h with h; subst h
+  exact aligned_labels a _ (aligned_filter _ _ hi.2.2.2.1) hi
+
+private theorem aligned_deleteLabel (a a' : BinArchive) (x i : Nat)
+    (h : a.deleteLabel x i = .ok a') (hi : Aligned a) : Aligned a' := by
+  unfold deleteLabel at h
+  split at h <;> try (cases h; done)
+  split at h
+  · rename_i b hg
+    split at h
+    · injection h with h; subst h
+      have hx : x % 4 = 0 := by
+        apply hi.2.2.2.1
+        have := get_mem _ _ _ hg
+        simp only [keys, List.mem_map]
+        exact ⟨_, this, rfl⟩
+      exact aligned_labels a _ (aligned_insert _ _ _ hx hi.2.2.2.1) hi
+    · cases h
+  · injection h with h; subst h; exact hi
+
+private theorem shiftAt_mod (a n x : Nat) (ha : a % 4 = 0) (hn : n % 4 = 0) (hx : x % 4 = 0) :
+    shiftAt a n x % 4 = 0 := by unfold shiftAt; split <;> omega
+private theorem shiftAfter_mod (a n : Nat) (ge : Bool) (x : Nat) (hn : n % 4 = 0) (hx : x % 4 = 0) :
+    shiftAfter a n ge x % 4 = 0 := by unfold shiftAfter; split <;> omega
+private theorem pull_mod (a n x : Nat) (hn : n % 4 = 0) (hx : x % 4 = 0) : pull a n x % 4 = 0 := by
+  unfold pull; split <;> omega
+
+private theorem aligned_allocate (a a' : BinArchive) (addr n : Nat) (ge : Bool) (hk : KeysNodup a)
+    (hi : Aligned a) (hok : a.allocate addr n ge = .ok a') : Aligned a' := by
+  by_cases hacc : allocAccepted a.size addr n
+  · obtain ⟨a'', h1, hc, _, _⟩ := allocate_spec a addr n ge hk hacc
+    rw [h1] at hok; injection hok with hok; subst hok
+    have hd : a''.data = a.data.take addr ++ List.replicate n 0 ++ a.data.drop addr := congrArg Content.data hc
+    have ht : a''.text = a.text.map (fun p => (shiftAt addr n p.1, p.2)) := congrArg Content.text hc
+    have hl : a''.labels = a.labels.map (fun p => (shiftAfter addr n ge p.1, p.2)) := congrArg Content.labels hc
+    have hp : a''.pointers = a.pointers.map (fun p => (shiftAt addr n p.1, shiftAfter addr n ge p.2)) :=
+      congrArg Content.ptrs hc
+    have hcs : a''.cstrings = a.cstrings.map (fun p => (p.1, p.2.map (shiftAt addr n))) := congrArg Content.cstrs hc
+    obtain ⟨h0, b1, b2, b3, b4⟩ := hi
+    obtain ⟨hle, ha, hn⟩ := hacc
+    refine ⟨?_, ?_, ?_, ?_, ?_⟩
+    · simp only [BinArchive.size] at *
+      rw [hd]; simp; omega
+    · intro k hk'
+      rw [ht] at hk'
+      obtain ⟨k0, hk0, rfl⟩ := mem_keys_map a.text (shiftAt addr n) (fun p => p.2) k hk'
+      exact shiftAt_mod _ _ _ ha hn (b1 k0 hk0)
+    · intro k hk'
+      rw [hp] at hk'
+      obtain ⟨k0, hk0, rfl⟩ := mem_keys_map a.pointers (shiftAt addr n) (fun p => shiftAfter addr n ge p.2) k hk'
+      exact shiftAt_mod _ _ _ ha hn (b2 k0 hk0)
+    · intro k hk'
+      rw [hl] at hk'
+      obtain ⟨k0, hk0, rfl⟩ := mem_keys_map a.labels (shiftAfter addr n ge) (fun p => p.2) k hk'
+      exact shiftAfter_mod _ _ _ _ hn (b3 k0 hk0)
+    · intro p hp' x hx
+      rw [hcs, List.mem_map] at hp'
+      obtain ⟨q, hq, rfl⟩ := hp'
+      simp only [List.mem_map] at hx
+      obtain ⟨y, hy, rfl⟩ := hx
+      exact shiftAt_mod _ _ _ ha hn (b4 q hq y hy)
+  · rw [allocate_rejected a addr n ge hacc] at hok; cases hok
+
+private theorem aligned_deallocate (a a' : BinArchive) (addr n : Nat) (ge : Bool) (hk : KeysNodup a)
+    (hi : Aligned a) (hok : a.deallocate addr n ge = .ok a') : Aligned a' := by
+  obtain ⟨hacc, hc, _⟩ := deallocate_ok a a' addr n ge hk hok
+  have hd : a'.data = a.data.take addr ++ a.data.drop (addr + n) := congrArg Content.data hc
+  have ht : a'.text = (a.text.filter (fun p => !inside addr n p.1)).map (fun p => (pull addr n p.1, p.2)) :=
+    congrArg Content.text hc
+  have hl : a'.labels = (a.labels.filter (fun p => !inside addr n p.1)).map (fun p => (pull addr n p.1, p.2)) :=
+    congrArg Content.labels hc
+  have hp : a'.pointers = (a.pointers.filter (fun p => !inside addr n p.1 && !inside addr n p.2)).map
+      (fun p => (pull addr n p.1, pull addr n p.2)) := congrArg Content.ptrs hc
+  have hcs : a'.cstrings = ((a.cstrings.map (fun p => (p.1, p.2.filter (fun x => !inside addr n x)))).filter
+      (fun p => !p.2.isEmpty)).map (fun p => (p.1, p.2.map (pull addr n))) := congrArg Content.cstrs hc
+  obtain ⟨h0, b1, b2, b3, b4⟩ := hi
+  obtain ⟨hlt, hle, ha, hn⟩ := hacc
+  refine ⟨?_, ?_, ?_, ?_, ?_⟩
+  · simp only [BinArchive.size] at *
+    rw [hd]; simp; omega
+  · intro k hk'
+    rw [ht] at hk'
+    simp only [keys, List.map_map, List.mem_map, Function.comp_def] at hk'
+    obtain ⟨p, hp', rfl⟩ := hk'
+    exact pull_mod _ _ _ hn (b1 p.1 (by simp only [keys, List.mem_map]; exact ⟨p, (List.mem_filter.mp hp').1, rfl⟩))
+  · intro k hk'
+    rw [hp] at hk'
+    simp only [keys, List.map_map, List.mem_map, Function.comp_def] at hk'
+    obtain ⟨p, hp', rfl⟩ := hk'
+    exact pull_mod _ _ _ hn (b2 p.1 (by simp only [keys, List.mem_map]; exact ⟨p, (List.mem_filter.mp hp').1, rfl⟩))
+  · intro k hk'
+    rw [hl] at hk'
+    simp only [keys, List.map_map, List.mem_map, Function.comp_def] at hk'
+    obtain ⟨p, hp', rfl⟩ := hk'
+    exact pull_mod _ _ _ hn (b3 p.1 (by simp only [keys, List.mem_map]; exact ⟨p, (List.mem_filter.mp hp').1, rfl⟩))
+  · intro p hp' x hx
+    rw [hcs, List.mem_map] at hp'
+    obtain ⟨q, hq, rfl⟩ := hp'
+    have hq1 := (List.mem_filter.mp hq).1
+    rw [List.mem_map] at hq1
+    obtain ⟨r, hr, rfl⟩ := hq1
+    simp only [List.mem_map] at hx
+    obtain ⟨y, hy, rfl⟩ := hx
+    exact pull_mod _ _ _ hn (b4 r hr y (List.mem_filter.mp hy).1)
+
+private theorem aligned_truncate (a : BinArchive) (cut : Nat) (hcut4 : cut % 4 = 0) (hk : KeysNodup a)
+    (hi : Aligned a) : Aligned (a.truncate cut) := by
+  obtain ⟨h0, b1, b2, b3, b4⟩ := hi
+  unfold BinArchive.truncate
+  by_cases hcut : cut ≥ a.data.length
+  · simp only [hcut, if_true]; exact ⟨h0, b1, b2, b3, b4⟩
+  · simp only [hcut, if_false]
+    refine ⟨?_, aligned_filter _ _ b1, aligned_filter _ _ b2, aligned_filter _ _ b3, ?_⟩
+    · simp only [BinArchive.size]; simp; omega
+    · intro p hp' x hx
+      rw [filterCStrings_eq _ _ hk.2.2.2] at hp'
+      have hp1 := (List.mem_filter.mp hp').1
+      rw [List.mem_map] at hp1
+      obtain ⟨q, hq, rfl⟩ := hp1
+      exact b4 q hq x (List.mem_filter.mp hx).1
+
+private theorem aligned_allocateAtEnd (a : BinArchive) (n : Nat) (hn : n % 4 = 0) (hi : Aligned a) :
+    Aligned (a.allocateAtEnd n) := by
+  obtain ⟨h0, b1, b2, b3, b4⟩ := hi
+  refine ⟨?_, b1, b2, b3, b4⟩
+  simp only [allocateAtEnd, BinArchive.size] at *
+  simp; omega
+
+private theorem aligned_upd (s : Sys) (r : Res BinArchive) (h : ∀ a', r = .ok a' → Aligned a')
+    (hi : Aligned s.arch) : Aligned (s.upd r).1.arch := by
+  cases r <;> simp_all [Sys.upd]
+
+private theorem aligned_wr (s : Sys) (r : Res Writer) (h : ∀ w, r = .ok w → Aligned w.archive)
+    (hi : Aligned s.arch) : Aligned (s.wr r).1.arch := by
+  cases r <;> simp_all [Sys.wr]
+
+private theorem aligned_wr_step (s : Sys) (k : Nat) (call : BinArchive → Nat → Res BinArchive)
+    (h : ∀ a', call s.arch s.wpos = .ok a' → Aligned a') (hi : Aligned s.arch) :
+    Aligned (s.wr (s.writer.step k call)).1.arch := by
+  apply aligned_wr _ _ _ hi
+  intro w hw
+  simp only [Writer.step, Sys.writer] at hw
+  cases hc : call s.arch s.wpos <;> simp [hc] at hw
+  subst hw
+  exact h _ hc
+
+/-- One aligned call keeps every annotation on a cell boundary and the data a whole number of cells. -/
+theorem step_aligned (s : Sys) (op : Op) (hk : KeysNodup s.arch) (hi : Aligned s.arch)
+    (hop : OpAligned s op) : Aligned (s.step op).1.arch := by
+  cases op <;> simp only [Sys.step, Sys.qry]
+  case allocEnd n => exact aligned_allocateAtEnd _ n hop hi
+  case wAllocEnd n => exact aligned_allocateAtEnd _ n hop hi
+  case truncate c => exact aligned_truncate _ c hop hk hi
+  case allocate x n ge => exact aligned_upd _ _ (fun a' h => aligned_allocate _ _ _ _ _ hk hi h) hi
+  case deallocate x n ge => exact aligned_upd _ _ (fun a' h => aligned_deallocate _ _ _ _ _ hk hi h) hi
+  case write t x v => exact aligned_upd _ _ (fun a' h => aligned_of_fields _ _ (writeTy_fields _ _ _ _ _ h) hi) hi
+  case writeBytes x v => exact aligned_upd _ _ (fun a' h => aligned_of_fields _ _ (writeBytes_fields _ _ _ _ h) hi) hi
+  case writeStr x v =>
+    refine aligned_upd _ _ (fun a' h => aligned_writeString _ _ _ _ ?_ h hi) hi
+    intro hv; cases v <;> simp_all [OpAligned]
+  case writePtr x v =>
+    refine aligned_upd _ _ (fun a' h => aligned_writePointer _ _ _ _ ?_ h hi) hi
+    intro hv; cases v <;> simp_all [OpAligned]
+  case writeCStr x v => exact aligned_upd _ _ (fun a' h => aligned_writeCString _ _ _ _ hop h hi) hi
+  case writeLabel x v => exact aligned_upd _ _ (fun a' h => aligned_writeLabel _ _ _ _ hop h hi) hi
+  case writeLabels x v => exact aligned_upd _ _ (fun a' h => aligned_writeLabels _ _ _ _ hop h hi) hi
+  case delStr x =>
+    exact aligned_upd _ _ (fun a' h => aligned_writeString _ _ x none (by simp) (by simpa [writeString] using h) hi) hi
+  case delPtr x =>
+    exact aligned_upd _ _ (fun a' h => aligned_writePointer _ _ x none (by simp) (by simpa [writePointer] using h) hi) hi
+  case delLabels x => exact aligned_upd _ _ (fun a' h => aligned_deleteLabels _ _ _ h hi) hi
+  case delLabel x i => exact aligned_upd _ _ (fun a' h => aligned_deleteLabel _ _ _ _ h hi) hi
+  case wWrite t v =>
+    apply aligned_wr _ _ _ hi
+    intro w hw
+    rw [Writer.writeTy_eq] at hw
+    cases hc : s.writer.archive.writeTy t s.writer.pos v <;> simp [hc, Res.map] at hw
+    subst hw
+    exact aligned_of_fields _ _ (writeTy_fields _ _ _ _ _ hc) hi
+  case wBytes v =>
+    simp only [Writer.writeBytes]
+    split
+    · exact hi
+    · cases hc : s.writer.archive.writeBytes s.writer.pos v <;> simp only [] <;> try exact hi
+      exact aligned_of_fields _ _ (writeBytes_fields _ _ _ _ hc) hi
+  case wStr v =>
+    refine aligned_wr_step s 4 _ (fun a' h => aligned_writeString _ _ _ _ ?_ h hi) hi
+    intro hv; cases v <;> simp_all [OpAligned]
+  case wPtr v =>
+    refine aligned_wr_step s 4 _ (fun a' h => aligned_writePointer _ _ _ _ ?_ h hi) hi
+    intro hv; cases v <;> simp_all [OpAligned]
+  case wCStr v => exact aligned_wr_step s 4 _ (fun a' h => aligned_writeCString _ _ _ _ hop h hi) hi
+  case wLabel v => exact aligned_wr_step s 0 _ (fun a' h => aligned_writeLabel _ _ _ _ hop h hi) hi
+  case wAlloc n ge =>
+    apply aligned_wr _ _ _ hi
+    intro w hw
+    simp only [Writer.allocate, Sys.writer] at hw
+    by_cases hpos : s.wpos = s.arch.size
+    · simp [hpos] at hw
+      subst hw; exact aligned_allocateAtEnd _ n hop hi
+    · cases hc : s.arch.allocate s.wpos n ge <;> simp [hc, hpos] at hw
+      subst hw
+      exact aligned_allocate _ _ _ _ _ hk hi hc
+  all_goals first
+    | exact hi
+    | (rw [Sys.rd_arch]; exact hi)
+    | (split <;> exact hi)
+    | (simp only [Reader.readBytesFull]; split <;> exact hi)
+    | (simp only [Reader.readSjisRawFull]; split <;> exact hi)
+
+/-- A history all of whose calls are aligned in the state they are issued in. -/
+def RunAligned : Sys → List Op → Prop
+  | _, [] => True
+  | s, op :: ops => OpAligned s op ∧ RunAligned (s.step op).1 ops
+
+/-- `history` for aligned histories (the way the library itself uses archives): in every reachable
+state each string cell, pointer cell and pending c-string use is a whole 4-byte cell inside the
+data on a cell boundary, labels sit on cell boundaries up to the end address, and two different
+cells of one map never overlap — the cell part of C01's well-formedness, so the state serialises
+with every annotated cell inside the data.  (Pointer *targets* are not constrained: truncate does
+not filter them, DESIGN N3.) -/
+theorem history_aligned (e : Endian) (ops : List Op) (hr : RunAligned (Sys.init e) ops) :
+    let a := ((Sys.init e).final ops).arch
+    (∀ k ∈ keys a.text, k % 4 = 0 ∧ k + 4 ≤ a.size)
+    ∧ (∀ k ∈ keys a.pointers, k % 4 = 0 ∧ k + 4 ≤ a.size)
+    ∧ (∀ p ∈ a.cstrings, ∀ x ∈ p.2, x % 4 = 0 ∧ x + 4 ≤ a.size)
+    ∧ (∀ k ∈ keys a.labels, k % 4 = 0 ∧ k ≤ a.size)
+    ∧ (∀ k ∈ keys a.text, ∀ k' ∈ keys a.text, k ≠ k' → k + 4 ≤ k' ∨ k' + 4 ≤ k)
+    ∧ (∀ k ∈ keys a.pointers, ∀ k' ∈ keys a.pointers, k ≠ k' → k + 4 ≤ k' ∨ k' + 4 ≤ k) := by
+  have gen : ∀ (ops : List Op) (s : Sys), Inv s.arch → Aligned s.arch → RunAligned s ops →
+      Inv (s.final ops).arch ∧ Aligned (s.final ops).arch := by
+    intro ops
+    induction ops with
+    | nil => intro s h1 h2 _; exact ⟨h1, h2⟩
+    | cons op ops ih =>
+      intro s h1 h2 h3
+      have := ih (s.step op).1 (step_inv s op h1) (step_aligned s op h1.1 h2 h3.1) h3.2
+      simpa [Sys.final, Sys.run] using this
+  have h0 : Aligned (Sys.init e).arch := by
+    simp [Aligned, Sys.init, BinArchive.new, BinArchive.size, keys]
+  obtain ⟨⟨_, b1, b2, b3, b4⟩, ⟨a0, a1, a2, a3, a4⟩⟩ := gen ops _ (inv_new e) h0 hr
+  refine ⟨?_, ?_, ?_, ?_, ?_, ?_⟩
+  · intro k hk; have := b1 k hk; have := a1 k hk; omega
+  · intro k hk; have := b2 k hk; have := a2 k hk; omega
+  · intro p hp x hx; have := b4 p hp x hx; have := a4 p hp x hx; omega
+  · intro k hk; exact ⟨a3 k hk, b3 k hk⟩
+  · intro k hk k' hk' hne; have := a1 k hk; have := a1 k' hk'; omega
+  · intro k hk k' hk' hne; have := a2 k hk; have := a2 k' hk'; omega
+
 /-! ### non-vacuity -/
 
 /-- A 3-cell archive with a string at 4, a pointer 8 → 4 and a label at 4 has distinct keys; the
